@@ -207,6 +207,20 @@ Theorem C13_o_option_written_partial :
 Proof. exact o_option_written. Qed.
 Print Assumptions C13_o_option_written_partial.
 
+(* standard output is selected by the whole -o argument only: with a directory part ("./-",
+   "out/-.bin") the argument always names a file ... *)
+Theorem C13_o_option_with_directory_partial :
+  forall outfile, contains slash outfile = true -> o_dest (o_option_output outfile) = ToFile outfile.
+Proof. exact o_option_with_directory. Qed.
+Print Assumptions C13_o_option_with_directory_partial.
+
+(* ... and standard output means the argument is "-" or "-.<ext>", ext without dot or slash *)
+Theorem C13_o_option_stdout_only_partial :
+  forall outfile, o_dest (o_option_output outfile) = ToStdout ->
+  outfile = s "-" \/ exists ext, outfile = s "-." ++ ext /\ ~ In dot ext /\ ~ In slash ext.
+Proof. exact o_option_stdout_only. Qed.
+Print Assumptions C13_o_option_stdout_only_partial.
+
 (* ------------------------------------------------------------------ non-vacuity *)
 (* 257 x 0xFF sums to 65535: the checksum is 0xFFFF *)
 Example C13_checksum_257_ff : checksum (repeat 255 257) = Ok 65535 /\ zsum (repeat 255 257) = 65535.
@@ -237,4 +251,11 @@ Example C13_default_path_example :
   default_path (s "/w/PROG.MaC") (Some (s "wav")) = s "/w/PROG.wav" /\
   default_path (s "/w/prog") (Some (s "bin")) = s "/w/prog.bin" /\
   default_path (s "/w/prog.mac") None = s "/w/prog".
+Proof. vm_compute. repeat split; reflexivity. Qed.
+
+Example C13_dash_file_example :
+  o_dest (o_option_output (s "./-")) = ToFile (s "./-") /\
+  o_dest (o_option_output (s "out/-.bin")) = ToFile (s "out/-.bin") /\
+  o_dest (o_option_output (s "-.bin")) = ToStdout /\ o_format (o_option_output (s "-.bin")) = FmtBin /\
+  o_dest (o_option_output (s "-.a.b")) = ToFile (s "-.a.b").
 Proof. vm_compute. repeat split; reflexivity. Qed.
